@@ -1194,4 +1194,629 @@ theorem decodeId_noPanic (inp : List UInt8) (s : String) : decodeId inp ≠ .pan
           omega
         · simp
 
+/-! ### snapshot objects without `bool` fields are re-exposed as the same words -/
+
+/-- the byte cells of a list of words -/
+def cellsOf (xs : List Int) : List Cell := xs.flatMap le32
+
+theorem cellsOf_length (xs : List Int) : (cellsOf xs).length = 4 * xs.length := by
+  induction xs with
+  | nil => rfl
+  | cons x xs ih => simp [cellsOf, List.flatMap_cons, le32] at ih ⊢; omega
+
+theorem cellsOf_append (xs ys : List Int) : cellsOf (xs ++ ys) = cellsOf xs ++ cellsOf ys := by
+  simp [cellsOf, List.flatMap_append]
+
+theorem wordOf_le32 (v : Int) (h : inI32 v) : wordOf (le32 v) = some v := by
+  unfold inI32 at h
+  simp only [le32, wordOf]
+  congr 1
+  have e1 : ∀ n : Nat, (UInt8.ofNat n).toNat = n % 256 := fun n => by simp [UInt8.toNat_ofNat']
+  simp only [e1]
+  unfold Tw.Packer.toI32
+  split <;> omega
+
+theorem words_cellsOf : ∀ (xs : List Int), (∀ x ∈ xs, inI32 x) → words xs.length (cellsOf xs) = xs.map some
+  | [], _ => rfl
+  | x :: xs, h => by
+    have ih := words_cellsOf xs (fun y hy => h y (by simp [hy]))
+    have hw := wordOf_le32 x (h x (by simp))
+    have ht : List.take 4 (cellsOf (x :: xs)) = le32 x := by simp [cellsOf, List.flatMap_cons, le32]
+    have hd : List.drop 4 (cellsOf (x :: xs)) = cellsOf xs := by simp [cellsOf, List.flatMap_cons, le32]
+    have hne : cellsOf (x :: xs) ≠ [] := by simp [cellsOf, List.flatMap_cons, le32]
+    cases hc : cellsOf (x :: xs) with
+    | nil => exact absurd hc hne
+    | cons c cs =>
+      simp only [List.length_cons, words, List.map_cons]
+      rw [← hc, ht, hd, hw, ih]
+
+theorem alignM_noBool : ∀ (t : MT), noBoolM t = true → wfO t = true → alignM t = 4
+  | .array _ t, hn, hw => by
+    simp only [noBoolM] at hn
+    simp only [wfO] at hw
+    simp only [alignM]
+    exact alignM_noBool t hn hw
+  | .boolean, hn, _ => by simp [noBoolM] at hn
+  | .int32 _ _, _, _ => rfl
+  | .enum _ _ _, _, _ => rfl
+  | .flags _ _, _, _ => rfl
+  | .tick, _, _ => rfl
+  | .tuneParam, _, _ => rfl
+  | .string _, _, _ => rfl
+  | .int32String, _, _ => rfl
+  | .data, _, _ => rfl
+  | .rest, _, _ => rfl
+  | .raw _, _, _ => rfl
+  | .beUint16, _, _ => rfl
+  | .uint8, _, _ => rfl
+  | .packedAddresses, _, _ => rfl
+  | .serverinfoClient, _, _ => rfl
+  | .twString _, _, _ => rfl
+  | .optional _, _, _ => rfl
+  | .object _, _, _ => rfl
+
+/-- what the member lemma states: the words consumed are the cells written -/
+def Reexposed (g : Val → OEnc) (inp : List Int) (v : Val) (r : List Int) : Prop :=
+  ∃ used, inp = used ++ r ∧ g v = .ok (cellsOf used)
+
+theorem OEnc.ok_seq_ok (a b : List Cell) : (OEnc.ok a).seq (.ok b) = .ok (a ++ b) := rfl
+
+theorem orep_cells (f : List Int → ORes Val) (g : Val → OEnc)
+    (h : ∀ inp v r, (∀ y ∈ inp, inI32 y) → f inp = .ok v r → Reexposed g inp v r) :
+    ∀ (n : Nat) (inp : List Int) (vs : VL) (r : List Int), (∀ y ∈ inp, inI32 y) →
+      orep f n inp = .ok vs r → ∃ used, inp = used ++ r ∧ cellsList g vs = .ok (cellsOf used) := by
+  intro n
+  induction n with
+  | zero =>
+    intro inp vs r _ he
+    simp [orep] at he
+    exact ⟨[], by simp [he.2], by simp [← he.1, cellsList, cellsOf]⟩
+  | succ n ih =>
+    intro inp vs r hi he
+    simp only [orep] at he
+    split at he
+    · simp at he
+    · rename_i v r1 h1
+      split at he
+      · simp at he
+      · rename_i vs' r2 h2
+        simp at he
+        obtain ⟨u1, hu1, hg1⟩ := h _ _ _ hi h1
+        have hi1 : ∀ y ∈ r1, inI32 y := fun y hy => hi y (by rw [hu1]; simp [hy])
+        obtain ⟨u2, hu2, hg2⟩ := ih _ _ _ hi1 h2
+        refine ⟨u1 ++ u2, by rw [hu1, hu2, ← he.2]; simp, ?_⟩
+        rw [← he.1]
+        simp [cellsList, hg1, hg2, OEnc.ok_seq_ok, cellsOf_append]
+
+theorem readIntO_any {inp : List Int} {v : Val} {r : List Int} (hi : ∀ y ∈ inp, inI32 y)
+    (h : readIntO inp (fun x => some (.int x)) = .ok v r) :
+    Reexposed (fun | .int x => cellInt x | _ => .badValue) inp v r := by
+  obtain ⟨x, hx, hk, hinp⟩ := readIntO_ok hi h
+  simp at hk
+  subst hk
+  exact ⟨[x], by simp [hinp], by simp [cellInt, hx, cellsOf]⟩
+
+theorem decO_cells : ∀ (t : MT) (inp : List Int) (v : Val) (r : List Int), wfO t = true → noBoolM t = true →
+    (∀ y ∈ inp, inI32 y) → decO t inp = .ok v r → Reexposed (cellsM t) inp v r
+  | .int32 min max, inp, v, r, _, _, hi, h => by
+    simp only [decO] at h
+    obtain ⟨x, hx, hk, hinp⟩ := readIntO_ok hi h
+    split at hk
+    · rename_i hc
+      simp at hk; subst hk
+      exact ⟨[x], by simp [hinp], by simp [cellsM, hx, hc, cellsOf]⟩
+    · simp at hk
+  | .enum _ lo n, inp, v, r, _, _, hi, h => by
+    simp only [decO] at h
+    obtain ⟨x, hx, hk, hinp⟩ := readIntO_ok hi h
+    split at hk
+    · rename_i hc
+      simp at hk; subst hk
+      exact ⟨[x], by simp [hinp], by simp [cellsM, hx, hc, cellsOf]⟩
+    · simp at hk
+  | .flags _ _, inp, v, r, _, _, hi, h => by
+    simp only [decO] at h
+    obtain ⟨x, hx, hk, hinp⟩ := readIntO_ok hi h
+    simp at hk; subst hk
+    exact ⟨[x], by simp [hinp], by simp [cellsM, cellInt, hx, cellsOf]⟩
+  | .tick, inp, v, r, _, _, hi, h => by
+    simp only [decO] at h
+    obtain ⟨x, hx, hk, hinp⟩ := readIntO_ok hi h
+    simp at hk; subst hk
+    exact ⟨[x], by simp [hinp], by simp [cellsM, cellInt, hx, cellsOf]⟩
+  | .twString n, inp, v, r, _, _, hi, h => by
+    simp only [decO] at h
+    split at h
+    · rename_i vs r' hr
+      simp at h
+      obtain ⟨used, hu, hc⟩ := orep_cells _ _ (fun inp v r hi' hh => readIntO_any hi' hh) _ _ _ _ hi hr
+      have hl := (orep_ok _ isI32 (fun inp v r hi' hh => by
+        obtain ⟨x, hx, hk, hinp⟩ := readIntO_ok hi' hh
+        simp at hk; subst hk
+        exact ⟨by simp [isI32, hx], fun y hy => hi' y (by rw [hinp]; simp [hy])⟩) _ _ _ _ hi hr).1
+      refine ⟨used, by rw [hu, h.2], ?_⟩
+      rw [← h.1]
+      simp [cellsM, hl]
+      exact hc
+    · simp at h
+  | .array n t, inp, v, r, hw, hn, hi, h => by
+    simp only [wfO] at hw
+    simp only [noBoolM] at hn
+    simp only [decO] at h
+    split at h
+    · rename_i vs r' hr
+      simp at h
+      obtain ⟨used, hu, hc⟩ := orep_cells _ _ (fun inp v r hi' hh => decO_cells t inp v r hw hn hi' hh) _ _ _ _ hi hr
+      have hl := (orep_ok _ (wtM t) (fun inp v r hi' hh => decO_wt t inp v r hi' hh) _ _ _ _ hi hr).1
+      refine ⟨used, by rw [hu, h.2], ?_⟩
+      rw [← h.1]
+      simp [cellsM, hl, hc]
+    · simp at h
+  | .boolean, _, _, _, _, hn, _, _ => by simp [noBoolM] at hn
+  | .object _, _, _, _, hw, _, _, _ => by simp [wfO] at hw
+  | .tuneParam, _, _, _, hw, _, _, _ => by simp [wfO] at hw
+  | .string _, _, _, _, hw, _, _, _ => by simp [wfO] at hw
+  | .int32String, _, _, _, hw, _, _, _ => by simp [wfO] at hw
+  | .data, _, _, _, hw, _, _, _ => by simp [wfO] at hw
+  | .rest, _, _, _, hw, _, _, _ => by simp [wfO] at hw
+  | .raw _, _, _, _, hw, _, _, _ => by simp [wfO] at hw
+  | .beUint16, _, _, _, hw, _, _, _ => by simp [wfO] at hw
+  | .uint8, _, _, _, hw, _, _, _ => by simp [wfO] at hw
+  | .packedAddresses, _, _, _, hw, _, _, _ => by simp [wfO] at hw
+  | .serverinfoClient, _, _, _, hw, _, _, _ => by simp [wfO] at hw
+  | .optional _, _, _, _, hw, _, _, _ => by simp [wfO] at hw
+
+theorem decOs_cells : ∀ (ms : ML) (inp : List Int) (vs : VL) (r : List Int) (off : Nat), wfOs ms = true →
+    noBool ms = true → (∀ y ∈ inp, inI32 y) → off % 4 = 0 → decOs ms inp = .ok vs r →
+    ∃ used, inp = used ++ r ∧ cellsMs ms vs off = .ok (cellsOf used)
+  | .nil, inp, vs, r, off, _, _, _, _, h => by
+    simp [decOs] at h
+    exact ⟨[], by simp [h.2], by simp [← h.1, cellsMs, cellsOf]⟩
+  | .cons t ms, inp, vs, r, off, hw, hn, hi, ho, h => by
+    simp only [wfOs, Bool.and_eq_true] at hw
+    simp only [noBool, Bool.and_eq_true] at hn
+    simp only [decOs] at h
+    split at h
+    · simp at h
+    · rename_i v r1 h1
+      split at h
+      · simp at h
+      · rename_i vs' r2 h2
+        simp at h
+        obtain ⟨u1, hu1, hg1⟩ := decO_cells t _ _ _ hw.1 hn.1 hi h1
+        have hi1 : ∀ y ∈ r1, inI32 y := fun y hy => hi y (by rw [hu1]; simp [hy])
+        have ha := alignM_noBool t hn.1 hw.1
+        have hpad : (4 - off % 4) % 4 = 0 := by omega
+        have ho' : (off + (cellsOf u1).length) % 4 = 0 := by rw [cellsOf_length]; omega
+        obtain ⟨u2, hu2, hg2⟩ := decOs_cells ms _ _ _ (off + (cellsOf u1).length) hw.2 hn.2 hi1 ho' h2
+        refine ⟨u1 ++ u2, by rw [hu1, hu2, ← h.2]; simp, ?_⟩
+        rw [← h.1]
+        simp [cellsMs, ha, hpad, hg1, hg2, OEnc.ok_seq_ok, cellsOf_append]
+
+theorem structAlign_noBool : ∀ (ms : ML), ms ≠ .nil → wfOs ms = true → noBool ms = true → structAlign ms = 4
+  | .nil, h, _, _ => absurd rfl h
+  | .cons t ms, _, hw, hn => by
+    simp only [wfOs, Bool.and_eq_true] at hw
+    simp only [noBool, Bool.and_eq_true] at hn
+    have ha := alignM_noBool t hn.1 hw.1
+    cases ms with
+    | nil => simp [structAlign, ha]
+    | cons t' ms' =>
+      have := structAlign_noBool (.cons t' ms') (by simp) hw.2 hn.2
+      simp [structAlign, ha] at this ⊢
+      omega
+
+/-- snapshot objects without boolean members are re-exposed as exactly the words they were
+decoded from -/
+theorem encodedWords_noBool (ms : ML) (inp : List Int) (hwf : wfOs ms = true) (hnb : noBool ms = true)
+    (hne : ms ≠ .nil) (hi : ∀ x ∈ inp, inI32 x) (hd : ∃ v, decodeObjMembers ms inp = .ok v false) :
+    encodedWords ms inp = some (inp.map some) := by
+  obtain ⟨v, hd⟩ := hd
+  unfold decodeObjMembers at hd
+  split at hd
+  · rename_i vs r h
+    simp at hd
+    have hr : r = [] := by cases r <;> simp_all
+    subst hr
+    obtain ⟨used, hu, hc⟩ := decOs_cells ms inp vs [] 0 hwf hnb hi (by rfl) h
+    simp at hu
+    subst hu
+    have hsa := structAlign_noBool ms hne hwf hnb
+    have hlen := cellsOf_length inp
+    simp only [encodedWords, decodeObjMembers, h, encodeObj, hc, hsa]
+    have h1 : ((cellsOf inp).length + (4 - (cellsOf inp).length % 4) % 4) = 4 * inp.length := by omega
+    simp only [h1]
+    have h2 : (4 * inp.length) % 4 = 0 := by omega
+    have h3 : 4 * inp.length / 4 = inp.length := by omega
+    have h4 : 4 * inp.length - (cellsOf inp).length = 0 := by omega
+    simp [h2, h3, h4, words_cellsOf inp hi]
+  · simp at hd
+
+
+/-! ### what decodes can be written back -/
+
+theorem rep_present (f : List UInt8 → Res Val) (h : ∀ inp v r ws, f inp = .ok v r ws → presentV v = true) :
+    ∀ (n : Nat) (inp : List UInt8) (vs : VL) (r : List UInt8) (ws : List Warning),
+      rep f n inp = .ok vs r ws → presentL vs = true := by
+  intro n
+  induction n with
+  | zero => intro inp vs r ws he; simp [rep] at he; simp [← he.1, presentL]
+  | succ n ih =>
+    intro inp vs r ws he
+    simp only [rep] at he
+    split at he
+    · simp at he
+    · simp at he
+    · rename_i v r1 ws1 h1
+      split at he
+      · simp at he
+      · simp at he
+      · rename_i vs' r2 ws2 h2
+        simp at he
+        rw [← he.1]
+        simp [presentL, h _ _ _ _ h1, ih _ _ _ _ h2]
+
+theorem readIntR_present {inp : List UInt8} {k : Int → Option Val} {x : Val} {r : List UInt8} {ws : List Warning}
+    (hk : ∀ v y, k v = some y → presentV y = true) (h : readIntR inp k = .ok x r ws) : presentV x = true := by
+  obtain ⟨v, _, hv⟩ := readIntR_ok h
+  exact hk v x hv
+
+mutual
+theorem decM_present : ∀ (t : MT) (inp : List UInt8) (v : Val) (r : List UInt8) (ws : List Warning),
+    noOptM t = true → decM t inp = .ok v r ws → presentV v = true
+  | .int32 _ _, inp, v, r, ws, _, h => by
+    simp only [decM] at h
+    exact readIntR_present (fun v y hy => by split at hy <;> simp at hy; simp [← hy, presentV]) h
+  | .boolean, inp, v, r, ws, _, h => by
+    simp only [decM] at h
+    exact readIntR_present (fun v y hy => by split at hy <;> simp at hy; simp [← hy, presentV]) h
+  | .enum _ _ _, inp, v, r, ws, _, h => by
+    simp only [decM] at h
+    exact readIntR_present (fun v y hy => by split at hy <;> simp at hy; simp [← hy, presentV]) h
+  | .flags _ _, inp, v, r, ws, _, h => by
+    simp only [decM] at h
+    exact readIntR_present (fun v y hy => by simp at hy; simp [← hy, presentV]) h
+  | .tick, inp, v, r, ws, _, h => by
+    simp only [decM] at h
+    exact readIntR_present (fun v y hy => by simp at hy; simp [← hy, presentV]) h
+  | .tuneParam, inp, v, r, ws, _, h => by
+    simp only [decM] at h
+    exact readIntR_present (fun v y hy => by simp at hy; simp [← hy, presentV]) h
+  | .string _, inp, v, r, ws, _, h => by
+    simp only [decM] at h
+    split at h
+    · simp at h
+    · split at h <;> simp at h
+      simp [← h.1, presentV]
+  | .int32String, inp, v, r, ws, _, h => by
+    simp only [decM] at h
+    split at h
+    · simp at h
+    · split at h <;> simp at h
+      simp [← h.1, presentV]
+  | .data, inp, v, r, ws, _, h => by
+    simp only [decM] at h
+    split at h
+    · simp at h
+    · split at h
+      · simp at h
+      · split at h <;> simp at h
+        simp [← h.1, presentV]
+  | .rest, inp, v, r, ws, _, h => by simp [decM] at h; simp [← h.1, presentV]
+  | .raw len, inp, v, r, ws, _, h => by
+    simp only [decM, readRawR] at h
+    split at h
+    · simp at h
+    · split at h <;> simp at h
+      simp [← h.1, presentV]
+  | .beUint16, inp, v, r, ws, _, h => by
+    simp only [decM, readRawR] at h
+    split at h
+    · simp at h
+    · split at h <;> simp at h
+      simp [← h.1, presentV]
+  | .uint8, inp, v, r, ws, _, h => by
+    simp only [decM, readRawR] at h
+    split at h
+    · simp at h
+    · split at h <;> simp at h
+      simp [← h.1, presentV]
+  | .packedAddresses, inp, v, r, ws, _, h => by
+    simp only [decM] at h
+    split at h <;> simp at h
+    simp [← h.1, presentV]
+  | .serverinfoClient, inp, v, r, ws, _, h => by simp [decM] at h; simp [← h.1, presentV]
+  | .twString n, inp, v, r, ws, _, h => by
+    simp only [decM] at h
+    split at h
+    · rename_i vs r' ws' hr
+      simp at h
+      rw [← h.1]
+      simp only [presentV]
+      exact rep_present _ (fun inp v r ws hh =>
+        readIntR_present (fun v y hy => by simp at hy; simp [← hy, presentV]) hh) _ _ _ _ _ hr
+    · simp at h
+    · simp at h
+  | .optional _, _, _, _, _, hn, _ => by simp [noOptM] at hn
+  | .array n t, inp, v, r, ws, hn, h => by
+    simp only [noOptM] at hn
+    simp only [decM] at h
+    split at h
+    · rename_i vs r' ws' hr
+      simp at h
+      rw [← h.1]
+      simp only [presentV]
+      exact rep_present _ (fun inp v r ws hh => decM_present t inp v r ws hn hh) _ _ _ _ _ hr
+    · simp at h
+    · simp at h
+  | .object ms, inp, v, r, ws, hn, h => by
+    simp only [noOptM] at hn
+    simp only [decM] at h
+    split at h
+    · rename_i vs r' ws' hr
+      simp at h
+      rw [← h.1]
+      simp only [presentV]
+      exact decMs_present ms inp vs r' ws' hn hr
+    · simp at h
+    · simp at h
+theorem decMs_present : ∀ (ms : ML) (inp : List UInt8) (vs : VL) (r : List UInt8) (ws : List Warning),
+    noOptMs ms = true → decMs ms inp = .ok vs r ws → presentL vs = true
+  | .nil, inp, vs, r, ws, _, h => by simp [decMs] at h; simp [← h.1, presentL]
+  | .cons t ms, inp, vs, r, ws, hn, h => by
+    simp only [noOptMs, Bool.and_eq_true] at hn
+    simp only [decMs] at h
+    split at h
+    · simp at h
+    · simp at h
+    · rename_i v r1 ws1 h1
+      split at h
+      · simp at h
+      · simp at h
+      · rename_i vs' r2 ws2 h2
+        simp at h
+        rw [← h.1]
+        simp [presentL, decM_present t _ _ _ _ hn.1 h1, decMs_present ms _ _ _ _ hn.2 h2]
+end
+
+/-- an optional member that `wfM` admits, decoded: present (with a scalar inside), or absent with
+the unpacker used up -/
+theorem decM_optional (t : MT) (hin : optInnerOk t = true) (inp : List UInt8) (v : Val) (r : List UInt8)
+    (ws : List Warning) (h : decM (.optional t) inp = .ok v r ws) :
+    (v ≠ .none ∧ presentV v = true) ∨ (v = .none ∧ r = []) := by
+  simp only [decM] at h
+  split at h
+  · rename_i x r' ws' hd
+    simp at h
+    left
+    rw [← h.1]
+    refine ⟨by simp, ?_⟩
+    simp only [presentV]
+    have hno : noOptM t = true := by cases t <;> simp_all [optInnerOk, noOptM]
+    exact decM_present t inp x r' ws' hno hd
+  · rename_i e r' ws' hd
+    simp at h
+    right
+    refine ⟨h.1.symm, ?_⟩
+    rw [← h.2.1]
+    cases t with
+    | int32 a b =>
+      cases a <;> cases b <;> simp [optInnerOk] at hin
+      simp only [decM, readIntR] at hd
+      split at hd
+      · simp at hd; exact hd.2.1
+      · simp [checkRange] at hd
+    | flags _ _ =>
+      simp only [decM, readIntR] at hd
+      split at hd
+      · simp at hd; exact hd.2.1
+      · simp at hd
+    | string s =>
+      cases s <;> simp [optInnerOk] at hin
+      simp only [decM] at hd
+      split at hd
+      · simp at hd; exact hd.2.1
+      · simp at hd
+    | data =>
+      simp only [decM] at hd
+      split at hd
+      · simp at hd; exact hd.2.1
+      · split at hd
+        · simp at hd; exact hd.2.1
+        · split at hd
+          · simp at hd; exact hd.2.1
+          · simp at hd
+    | _ => simp [optInnerOk] at hin
+  · simp at h
+
+/-- only optional members left and nothing to read: everything is absent -/
+theorem decMs_allOptional_empty : ∀ (ms : ML) (vs : VL) (r : List UInt8) (ws : List Warning),
+    wfMs ms = true → allOptional ms = true → decMs ms [] = .ok vs r ws → allNone vs = true
+  | .nil, vs, r, ws, _, _, h => by simp [decMs] at h; simp [← h.1, allNone]
+  | .cons t ms, vs, r, ws, hwf, ha, h => by
+    cases t with
+    | optional t' =>
+      simp only [allOptional] at ha
+      simp only [wfMs, Bool.and_eq_true] at hwf
+      have hin : optInnerOk t' = true := by simpa [wfM] using hwf.1.1
+      simp only [decMs, decM, optInner_empty t' hin] at h
+      split at h
+      · simp at h
+      · simp at h
+      · rename_i vs' r2 ws2 h2
+        simp at h
+        rw [← h.1]
+        simp only [allNone]
+        exact decMs_allOptional_empty ms vs' r2 ws2 hwf.2 ha h2
+    | _ => simp [allOptional] at ha
+
+/-- What `decode` produces has its absent optional members at the end. -/
+theorem decMs_absentOk : ∀ (ms : ML) (inp : List UInt8) (vs : VL) (r : List UInt8) (ws : List Warning),
+    wfMs ms = true → optsLast ms = true → decMs ms inp = .ok vs r ws → absentOk vs = true
+  | .nil, inp, vs, r, ws, _, _, h => by simp [decMs] at h; simp [← h.1, absentOk]
+  | .cons t ms, inp, vs, r, ws, hwf, hol, h => by
+    have hwf0 := hwf
+    simp only [wfMs, Bool.and_eq_true] at hwf
+    simp only [decMs] at h
+    split at h
+    · simp at h
+    · simp at h
+    · rename_i v r1 ws1 h1
+      split at h
+      · simp at h
+      · simp at h
+      · rename_i vs' r2 ws2 h2
+        simp at h
+        rw [← h.1]
+        cases t with
+        | optional t' =>
+          simp only [optsLast] at hol
+          have hin : optInnerOk t' = true := by simpa [wfM] using hwf.1.1
+          rcases decM_optional t' hin inp v r1 ws1 h1 with ⟨hne, hp⟩ | ⟨hv, hr⟩
+          · have htail : absentOk vs' = true := by
+              -- the remaining members are all optional
+              exact decMs_absentOk_allOptional ms r1 vs' r2 ws2 hwf.2 hol h2
+            cases v <;> simp_all [absentOk]
+          · subst hv; subst hr
+            simp only [absentOk]
+            exact decMs_allOptional_empty ms vs' r2 ws2 hwf.2 hol h2
+        | _ =>
+          all_goals (
+            simp only [optsLast, Bool.and_eq_true] at hol
+            have hp := decM_present _ _ _ _ _ hol.1 h1
+            have htail := decMs_absentOk ms r1 vs' r2 ws2 hwf.2 hol.2 h2
+            cases v <;> simp_all [absentOk, presentV])
+where
+  decMs_absentOk_allOptional : ∀ (ms : ML) (inp : List UInt8) (vs : VL) (r : List UInt8) (ws : List Warning),
+      wfMs ms = true → allOptional ms = true → decMs ms inp = .ok vs r ws → absentOk vs = true
+    | .nil, inp, vs, r, ws, _, _, h => by simp [decMs] at h; simp [← h.1, absentOk]
+    | .cons t ms, inp, vs, r, ws, hwf, ha, h => by
+      cases t with
+      | optional t' =>
+        simp only [allOptional] at ha
+        simp only [wfMs, Bool.and_eq_true] at hwf
+        have hin : optInnerOk t' = true := by simpa [wfM] using hwf.1.1
+        simp only [decMs] at h
+        split at h
+        · simp at h
+        · simp at h
+        · rename_i v r1 ws1 h1
+          split at h
+          · simp at h
+          · simp at h
+          · rename_i vs' r2 ws2 h2
+            simp at h
+            rw [← h.1]
+            rcases decM_optional t' hin inp v r1 ws1 h1 with ⟨hne, hp⟩ | ⟨hv, hr⟩
+            · have htail := decMs_absentOk_allOptional ms r1 vs' r2 ws2 hwf.2 ha h2
+              cases v <;> simp_all [absentOk]
+            · subst hv; subst hr
+              simp only [absentOk]
+              exact decMs_allOptional_empty ms vs' r2 ws2 hwf.2 ha h2
+      | _ => simp [allOptional] at ha
+
+
+/-- Every message that `decode` accepts (with or without warnings) can be encoded again, and the
+result decodes to the same value without warnings. -/
+theorem decoded_reencodes (ms : ML) (bs : List UInt8) (v : VL) (ws : List Warning) (hwf : wfMs ms = true)
+    (hol : optsLast ms = true) (hd : decodeMembers ms bs = .ok v ws) :
+    ∃ bs', encStruct ms v = .ok bs' ∧ decodeMembers ms bs' = .ok v [] := by
+  unfold decodeMembers at hd
+  split at hd
+  · rename_i vs r ws' h
+    simp at hd
+    rw [← hd.1]
+    exact decodeMembers_encStruct ms vs hwf (decMs_wt ms bs vs r ws' h) (decMs_absentOk ms bs vs r ws' hwf hol h)
+  · simp at hd
+  · simp at hd
+
+/-! ### an object decoder consumes `int_size` integers -/
+
+theorem readIntO_len {inp : List Int} {k : Int → Option Val} {x : Val} {r : List Int}
+    (h : readIntO inp k = .ok x r) : inp.length = 1 + r.length := by
+  unfold readIntO at h
+  split at h
+  · simp at h
+  · split at h
+    · simp at h; simp [← h.2]; omega
+    · simp at h
+
+theorem orep_len (f : List Int → ORes Val) (c : Nat)
+    (h : ∀ inp v r, f inp = .ok v r → inp.length = c + r.length) :
+    ∀ (n : Nat) (inp : List Int) (vs : VL) (r : List Int), orep f n inp = .ok vs r → inp.length = n * c + r.length := by
+  intro n
+  induction n with
+  | zero => intro inp vs r he; simp [orep] at he; simp [he.2]
+  | succ n ih =>
+    intro inp vs r he
+    simp only [orep] at he
+    split at he
+    · simp at he
+    · rename_i v r1 h1
+      split at he
+      · simp at he
+      · rename_i vs' r2 h2
+        simp at he
+        have a := h _ _ _ h1
+        have b := ih _ _ _ h2
+        rw [← he.2, Nat.succ_mul]
+        omega
+
+theorem decO_len : ∀ (t : MT) (inp : List Int) (v : Val) (r : List Int), wfO t = true →
+    decO t inp = .ok v r → inp.length = intSizeM t + r.length
+  | .int32 _ _, inp, v, r, _, h => by simp only [decO] at h; simpa [intSizeM] using readIntO_len h
+  | .boolean, inp, v, r, _, h => by simp only [decO] at h; simpa [intSizeM] using readIntO_len h
+  | .enum _ _ _, inp, v, r, _, h => by simp only [decO] at h; simpa [intSizeM] using readIntO_len h
+  | .flags _ _, inp, v, r, _, h => by simp only [decO] at h; simpa [intSizeM] using readIntO_len h
+  | .tick, inp, v, r, _, h => by simp only [decO] at h; simpa [intSizeM] using readIntO_len h
+  | .twString n, inp, v, r, _, h => by
+    simp only [decO] at h
+    split at h
+    · rename_i vs r' hr
+      simp at h
+      have := orep_len _ 1 (fun inp v r hh => readIntO_len hh) _ _ _ _ hr
+      rw [← h.2]; simpa [intSizeM] using this
+    · simp at h
+  | .array n t, inp, v, r, hw, h => by
+    simp only [wfO] at hw
+    simp only [decO] at h
+    split at h
+    · rename_i vs r' hr
+      simp at h
+      have := orep_len _ (intSizeM t) (fun inp v r hh => decO_len t inp v r hw hh) _ _ _ _ hr
+      rw [← h.2]; simpa [intSizeM] using this
+    · simp at h
+  | .object _, _, _, _, hw, _ => by simp [wfO] at hw
+  | .tuneParam, _, _, _, hw, _ => by simp [wfO] at hw
+  | .string _, _, _, _, hw, _ => by simp [wfO] at hw
+  | .int32String, _, _, _, hw, _ => by simp [wfO] at hw
+  | .data, _, _, _, hw, _ => by simp [wfO] at hw
+  | .rest, _, _, _, hw, _ => by simp [wfO] at hw
+  | .raw _, _, _, _, hw, _ => by simp [wfO] at hw
+  | .beUint16, _, _, _, hw, _ => by simp [wfO] at hw
+  | .uint8, _, _, _, hw, _ => by simp [wfO] at hw
+  | .packedAddresses, _, _, _, hw, _ => by simp [wfO] at hw
+  | .serverinfoClient, _, _, _, hw, _ => by simp [wfO] at hw
+  | .optional _, _, _, _, hw, _ => by simp [wfO] at hw
+
+theorem decOs_len : ∀ (ms : ML) (inp : List Int) (vs : VL) (r : List Int), wfOs ms = true →
+    decOs ms inp = .ok vs r → inp.length = intSize ms + r.length
+  | .nil, inp, vs, r, _, h => by simp [decOs] at h; simp [intSize, h.2]
+  | .cons t ms, inp, vs, r, hw, h => by
+    simp only [wfOs, Bool.and_eq_true] at hw
+    simp only [decOs] at h
+    split at h
+    · simp at h
+    · rename_i v r1 h1
+      split at h
+      · simp at h
+      · rename_i vs' r2 h2
+        simp at h
+        have a := decO_len t _ _ _ hw.1 h1
+        have b := decOs_len ms _ _ _ hw.2 h2
+        rw [← h.2]
+        simp only [intSize]
+        omega
+
+
 end Tw.Gamenet
